@@ -249,6 +249,128 @@ def handleApi (toks : List String) : Option String :=
       else pure (specCase P m steps ys pairs kind subs desc lca rolls)
   | _ => none
 
+/-! ### manager / planner level
+
+  mrun  <legacy 0|1> <n> <ops>     -> ok <out>(;<out>)*
+  mspec <n> <ops> <obs>(;<obs>)*   -> ok | viol <k> <what>
+
+    op  := e+<s>-<t>:<ty> | e-<s>-<t>:<ty> | s<v>=<int|_> | r<v>
+         | c<ty>(.<ty>)*:<0|1 reverse> | b | d
+         | q<D|C|S|N|X>:<ty>:<0|1 pinned node is the arrow target>:<root>
+    out := .                         (writes)
+         | ok:<encoding|declined|-> | err          (create / rebuild / drop)
+         | <I|E>:<answer>            (query: plan used the Index / the Expansion)
+    obs := as out, but a query carries both engines' answers:  <I|E>:<with index>:<without>
+    answer := a.b.c | _  (rows, ascending)   |  <int> | N  (aggregate)
+-/
+
+def parseMOp? (s : String) : Option (MOp ⊕ Query) :=
+  let edge? (t : String) : Option (Nat × Nat × Nat) :=
+    match t.splitOn ":" with
+    | [st, ty] => match st.splitOn "-" with
+      | [a, b] => do pure (← a.toNat?, ← b.toNat?, ← ty.toNat?)
+      | _ => none
+    | _ => none
+  if s.startsWith "e+" then (edge? (s.drop 2).toString).map (fun e => .inl (.addEdge e.1 e.2.1 e.2.2))
+  else if s.startsWith "e-" then (edge? (s.drop 2).toString).map (fun e => .inl (.delEdge e.1 e.2.1 e.2.2))
+  else if s.startsWith "s" then
+    match ((s.drop 1).toString).splitOn "=" with
+    | [v, x] => do pure (.inl (.setMeas (← v.toNat?) (← parseOptInt? x)))
+    | _ => none
+  else if s.startsWith "r" then ((s.drop 1).toString.toNat?).map (fun v => .inl (.removeMeas v))
+  else if s.startsWith "c" then
+    match ((s.drop 1).toString).splitOn ":" with
+    | [tys, rv] => do
+        let tys ← (tys.splitOn ".").mapM (·.toNat?)
+        let rv ← (if rv == "1" then some true else if rv == "0" then some false else none)
+        pure (.inl (.create { types := tys, reverse := rv }))
+    | _ => none
+  else if s == "b" then some (.inl .rebuild)
+  else if s == "d" then some (.inl .drop)
+  else if s.startsWith "q" then
+    match ((s.drop 1).toString).splitOn ":" with
+    | [k, ty, pt, root] => do
+        let k ← (match k with
+          | "D" => some QKind.desc | "C" => some QKind.count | "S" => some QKind.sum
+          | "N" => some QKind.min | "X" => some QKind.max | _ => none)
+        let pt ← (if pt == "1" then some true else if pt == "0" then some false else none)
+        pure (.inr { kind := k, ty := ← ty.toNat?, pinnedIsTarget := pt, root := ← root.toNat? })
+    | _ => none
+  else none
+
+def showQOut : QOut → String
+  | .rows l => showNats l
+  | .val v => showRV v
+
+def showDdl (isDrop : Bool) : DdlOut → String
+  | .none => "."
+  | .err => "err"
+  | .ok (some e) => "ok:" ++ encName e
+  | .ok none => if isDrop then "ok:-" else "ok:declined"
+
+def opsInRange (n : Nat) : List (MOp ⊕ Query) → Bool
+  | [] => true
+  | .inl (.addEdge a b _) :: r => a < n && b < n && opsInRange n r
+  | .inl (.delEdge a b _) :: r => a < n && b < n && opsInRange n r
+  | .inl (.setMeas v _) :: r => v < n && opsInRange n r
+  | .inl (.removeMeas v) :: r => v < n && opsInRange n r
+  | .inl _ :: r => opsInRange n r
+  | .inr q :: r => q.root < n && opsInRange n r
+
+def mrunOut (legacy : Bool) : MState → List (MOp ⊕ Query) → List String → List String
+  | _, [], acc => acc.reverse
+  | s, .inl op :: rest, acc =>
+    let r := mstepWith legacy s op
+    let isDrop := match op with | .drop => true | _ => false
+    mrunOut legacy r.1 rest (showDdl isDrop r.2 :: acc)
+  | s, .inr q :: rest, acc =>
+    let a := answerWith legacy s q
+    mrunOut legacy s rest (((if a.1 then "I:" else "E:") ++ showQOut a.2) :: acc)
+
+/-- S on observations: the rewritten query returns what the expansion returns, and no plan
+uses the index between a write to the covering relation and the next successful rebuild -/
+def mspecGo (k : Nat) (spec : Option MSpec) (dirty : Bool) :
+    List (MOp ⊕ Query) → List String → String
+  | [], [] => "ok"
+  | .inl op :: rest, o :: os =>
+    match op with
+    | .create sp =>
+      if o.startsWith "ok:" then mspecGo (k + 1) (some sp) false rest os
+      else mspecGo (k + 1) spec dirty rest os
+    | .rebuild =>
+      if o.startsWith "ok:" then mspecGo (k + 1) spec false rest os
+      else mspecGo (k + 1) spec dirty rest os
+    | .drop =>
+      if o.startsWith "ok" then mspecGo (k + 1) none false rest os
+      else mspecGo (k + 1) spec dirty rest os
+    | w =>
+      let d := match spec with
+        | some sp => dirty || w.coveringWrite sp
+        | none => dirty
+      mspecGo (k + 1) spec d rest os
+  | .inr _ :: rest, o :: os =>
+    match o.splitOn ":" with
+    | [plan, withIdx, without] =>
+      if withIdx != without then s!"viol {k} rewrite-differs"
+      else if plan == "I" && (dirty || spec.isNone) then s!"viol {k} stale-index-used"
+      else mspecGo (k + 1) spec dirty rest os
+    | _ => s!"viol {k} shape"
+  | _, _ => "viol shape"
+
+def handleMgr (toks : List String) : Option String :=
+  match toks with
+  | ["mrun", legacy, n, ops] => do
+      let n ← n.toNat?
+      let ops ← (ops.splitOn ";").mapM parseMOp?
+      if !opsInRange n ops then none
+      else pure ("ok " ++ joinWith ";" (mrunOut (legacy == "1") (MState.init n) ops []))
+  | ["mspec", n, ops, obs] => do
+      let n ← n.toNat?
+      let ops ← (ops.splitOn ";").mapM parseMOp?
+      if !opsInRange n ops then none
+      else pure (mspecGo 0 none false ops (obs.splitOn ";"))
+  | _ => none
+
 def handle (_ : Unit) (line : String) : Unit × String :=
   let toks := tokens line
   match handleApi toks with
